@@ -358,11 +358,14 @@ class ExceptionTrace(object):
 
             self._render_line(
                 io,
-                "<fg=blue;options=bold>{} </><fg=default;options=bold>{}</>: {}{}".format(
+                "<fg=blue;options=bold>{} </><fg=default;options=bold>{}</>: <fg=default>{}</>{}".format(
                     symbol,
-                    title.rstrip("."),
-                    description,
-                    ",".join("\n  <fg=blue>{}</>".format(link) for link in links),
+                    _literal(title.rstrip("."), "fg=default;options=bold"),
+                    _literal(description, "fg=default"),
+                    ",".join(
+                        "\n  <fg=blue>{}</>".format(_literal(link, "fg=blue"))
+                        for link in links
+                    ),
                 ),
                 True,
             )
